@@ -393,6 +393,45 @@ theorem find_content_short_read_independent (f : Model.FileData) (sch : Nat → 
   rw [Model.G.findContent_M] at h
   exact h
 
+/-- **Streaming reader, one header** (`read_zipfile_from_stream` up to the construction of the entry; no
+seek is ever issued): from any state of the reader, over any short-read schedule, the same local record -
+or "central directory reached", or the same error - and the reader is left at the same position. -/
+theorem stream_header_short_read_independent (sch : Nat → Nat) (d sd : Model.Dev) (hb : sd.buf = d.buf)
+    (hp : sd.pos = d.pos) :
+    ∃ o d' sd', Model.streamHeader none d = (o, d') ∧
+      (Model.G.streamHeader : Model.MS (Option Model.FileData)) sch sd = (o, sd') ∧
+      sd'.buf = d'.buf ∧ sd'.pos = d'.pos := by
+  have h := Model.G.sim_streamHeader.elim sch d sd ⟨hb, hp⟩
+  rw [Model.G.streamHeader_M] at h
+  exact h
+
+/-- **Streaming reader, the whole visit** (`ZipStreamReader::visit`: every entry in stream order - header,
+then its data drained to the end of its `Take`, which is what positions the reader for the next header -
+then the central directory records).  For every byte string and every short-read schedule the visitor sees
+exactly the events it sees over the `Cursor`: the same entries with the same metadata and the same
+read-to-end results, the same central records, or the same error. -/
+theorem stream_visit_short_read_independent (ext : Model.Ext) (bs : Bytes) (sch : Nat → Nat) :
+    ∃ o d' sd', Model.streamVisit ext none (Model.Dev.ofBytes bs) = (o, d') ∧
+      (Model.G.streamVisitF ext (bs.length / 30 + 1) (bs.length / 46 + 1) :
+        Model.MS (List (Model.FileData × Out Bytes) × List Model.FileData)) sch (Model.Dev.ofBytes bs) = (o, sd') ∧
+      sd'.buf = d'.buf ∧ sd'.pos = d'.pos := by
+  have h := (Model.G.sim_streamVisitF ext (bs.length / 30 + 1) (bs.length / 46 + 1)).elim sch
+    (Model.Dev.ofBytes bs) (Model.Dev.ofBytes bs) ⟨rfl, rfl⟩
+  rw [Model.G.streamVisit_M]
+  exact h
+
+/-- Two schedules show the visitor the same events. -/
+theorem stream_visit_schedules_agree (ext : Model.Ext) (bs : Bytes) (sch₁ sch₂ : Nat → Nat) :
+    ((Model.G.streamVisitF ext (bs.length / 30 + 1) (bs.length / 46 + 1) :
+        Model.MS (List (Model.FileData × Out Bytes) × List Model.FileData)) sch₁ (Model.Dev.ofBytes bs)).1 =
+    ((Model.G.streamVisitF ext (bs.length / 30 + 1) (bs.length / 46 + 1) :
+        Model.MS (List (Model.FileData × Out Bytes) × List Model.FileData)) sch₂ (Model.Dev.ofBytes bs)).1 := by
+  obtain ⟨o₁, _, _, e₁, f₁, _⟩ := stream_visit_short_read_independent ext bs sch₁
+  obtain ⟨o₂, _, _, e₂, f₂, _⟩ := stream_visit_short_read_independent ext bs sch₂
+  rw [f₁, f₂]
+  rw [e₁] at e₂
+  exact (Prod.mk.inj e₂).1
+
 /-- The short-reading device as a reader of the layer model: delivers the bytes behind its position,
 then a clean end of file, under every schedule. -/
 theorem short_device_denotes (sch : Nat → Nat) (d : Model.Dev) :
@@ -604,6 +643,29 @@ more calls (so short reads did occur). -/
 example :
     (Model.openBoth Model.oneEntry (fun _ => 1)).map (fun r => (r.1, r.2.1, r.2.2.1.2 == r.2.2.2.2,
       decide (r.2.2.1.1 < r.2.2.2.1))) = some ([[0x61]], [[0x61]], true, true) := by
+  decide +kernel
+
+/-- For the example below: the streaming visit of `bs` over the `Cursor` and over the short-reading
+device (names of the streamed entries with their read-to-end results, names of the central records, final
+position; number of `read` calls of both runs). -/
+def streamBoth (bs : Bytes) (sch : Nat → Nat) :
+    Option ((List (Bytes × Option Bytes) × List Bytes × Nat) × Bool × Bool) :=
+  let view (r : List (Model.FileData × Out Bytes) × List Model.FileData) (d : Model.Dev) :
+      List (Bytes × Option Bytes) × List Bytes × Nat :=
+    (r.1.map (fun x => (x.1.fileNameRaw, match x.2 with | .ok b => some b | _ => none)),
+      r.2.map (fun (f : Model.FileData) => f.fileNameRaw), d.pos)
+  match Model.streamVisit Model.storedExt none (Model.Dev.ofBytes bs),
+    (Model.G.streamVisitF Model.storedExt (bs.length / 30 + 1) (bs.length / 46 + 1) :
+      Model.MS (List (Model.FileData × Out Bytes) × List Model.FileData)) sch (Model.Dev.ofBytes bs) with
+  | (.ok a, d), (.ok b, sd) => some (view a d, decide (view a d = view b sd), decide (d.calls < sd.calls))
+  | _, _ => none
+
+set_option synthInstance.maxSize 1000 in
+/-- `stream_visit_short_read_independent` observed on the 101-byte archive: over a reader that delivers one
+byte per call the visitor sees the same entry `a` with content "Z", the same central record, and stops at
+the same position (83: behind the central record); the short-reading run needed more calls. -/
+example :
+    streamBoth Model.oneEntry (fun _ => 1) = some (([([0x61], some [0x5a])], [[0x61]], 83), true, true) := by
   decide +kernel
 
 /-- `header_writes_absorb_short_writes` observed: two chunks written at position 1 of a 3-byte device
